@@ -44,7 +44,7 @@ fn occurrences(s: &[char], t: &str, eq: &dyn Fn(char, char) -> bool) -> Vec<(usi
 }
 
 pub fn run(cfg: &Cfg, rep: &mut Report) {
-    let alphabet: Vec<char> = "\\^$.|?*+()[]{}-/&,akKé\n\u{2028}\u{10000}!#~:<=>@`%;".chars().collect();
+    let alphabet: Vec<char> = "\\^$.|?*+()[]{}-/&,aksiKé\n\u{2028}\u{10000}!#~:<=>@`%;".chars().collect();
     let mut strings: Vec<String> = vec![String::new()];
     let maxlen = if cfg.quick() { 2 } else { 3 };
     let mut frontier = vec![String::new()];
@@ -96,13 +96,23 @@ pub fn run(cfg: &Cfg, rep: &mut Report) {
         let sc: Vec<char> = s.chars().collect();
         let mut hays: Vec<String> = Vec::new();
         let mut prng = Rng::new(h ^ cfg.seed);
-        for v in 0..3 {
+        for v in 0..6 {
             let mut t = String::new();
             for _ in 0..prng.range(0, 3) {
                 t.push(*prng.pick(&filler));
             }
             for &c in &sc {
-                let c2 = if v == 1 { c.to_uppercase().next().unwrap_or(c) } else if v == 2 { c.to_lowercase().next().unwrap_or(c) } else { c };
+                // variants 3..: a member of the character's folding neighbourhood in either relation
+                // (K / KELVIN SIGN, s / LONG S, i / dotless and dotted I, ...), equivalent or not
+                let c2 = match v {
+                    1 => c.to_uppercase().next().unwrap_or(c),
+                    2 => c.to_lowercase().next().unwrap_or(c),
+                    0 => c,
+                    _ => {
+                        let ps = crate::gen::partners(c as u32);
+                        char::from_u32(*prng.pick(&ps)).unwrap_or(c)
+                    }
+                };
                 t.push(c2);
             }
             for _ in 0..prng.range(0, 2) {
